@@ -111,6 +111,21 @@ inline void maybe_bystander() {
 struct ModuleCache {
   std::map<std::tuple<uint64_t, int, unsigned>, MODULE*> m;
   MODULE* get(uint64_t nn, MODULE_TYPE t, unsigned mask = 0) {
+    if (vh::g_side_thread && nn <= 4096) {
+      // a case running on a freshly created thread gets a module built by that thread (destroyed after the case): thread-local or
+      // first-use state inside constructors is then exercised from a thread that did not initialise the library
+      MODULE* fm;
+      {
+        MaskGuard g(mask);
+        fm = new_module_info(nn, t);
+      }
+      vh::g_case_cleanup.push_back([fm, mask]() {
+        MaskGuard g(mask);
+        delete_module_info(fm);
+      });
+      maybe_bystander();
+      return fm;
+    }
     auto key = std::make_tuple(nn, (int)t, mask);
     auto it = m.find(key);
     MODULE* mod;
